@@ -73,7 +73,7 @@ if __name__ == "__main__":
         logging.error("The input JSON file could not be parsed; error: " + e.message)
         sys.exit(1)
 
-    basename = os.path.basename(parsed_args.infile.rsplit(".", 1)[0])
+    basename = os.path.splitext(os.path.basename(parsed_args.infile))[0]
     outfname = "%s_result.json" % basename
     logging.info("Writing output to file %s..." % outfname)
     with open(outfname, 'w') as outfile:
